@@ -232,7 +232,7 @@ impl Prop for C19 {
          for 16 games covering every protocol family x 2 output modes x 6 formats. Oracle: exit status 0 and exactly one document on stdout that a strict parser in the harness \
          accepts (serde_json; an XML 1.1 well-formedness checker incl. the Name production and restricted characters; the bson crate after hex / base64 decoding; debug: non-empty) \
          and that carries the values the library returns for the same server queried in-process (JSON / BSON: structural equality, floats within 1e-6; XML: the tree the CLI's \
-         documented JSON->XML mapping gives, children compared as multisets). Invalid invocations (unknown game, unresolvable host, closed port, zero / non-numeric / negative \
+         documented JSON->XML mapping gives, children compared as multisets). Invalid invocations (generated junk / out-of-range / extreme values for every value-taking flag in front of a refused connection or an unknown game; unknown game, unresolvable host, closed port, zero / non-numeric / negative \
          timeout flags, out-of-range port, unknown format, missing arguments) must exit non-zero with a message on stderr and no panic. non-trivial = a markup / control / non-ASCII \
          character reached the document, or an invalid invocation; distinct = digest of the case"
             .into()
@@ -259,7 +259,7 @@ impl Prop for C19 {
                 weighted.push(g);
             }
         }
-        (prop::sample::select(weighted), 0u8 .. 6, any::<bool>())
+        let query = (prop::sample::select(weighted), 0u8 .. 6, any::<bool>())
             .prop_flat_map(|(game, format, specific)| {
                 let fam = family_of_game(game).unwrap_or(Family::Savage2);
                 (Just(game), Just(format), Just(specific), fam_state(fam))
@@ -267,8 +267,31 @@ impl Prop for C19 {
             .prop_map(|(game, format, specific, mut st)| {
                 sanitise(&mut st);
                 Case::Query { game: game.to_string(), format, specific, st }
-            })
-            .boxed()
+            });
+        // a flag value that is junk, out of range or extreme, for a game whose server refuses the connection: whatever the value is taken for,
+        // the invocation cannot succeed
+        let junk = prop_oneof![
+            prop::sample::select(vec![
+                "nan", "NaN", "inf", "-inf", "infinity", "1e20", "1e400", "99999999999999999999", "18446744073709551616", "18446744073709551615", "9223372036854775808", "4294967296",
+                "0.0000000001", "0.5", "1.5", "-0", "+0", "+1", "-1", "0x10", "1_000", " 1", "1 ", "", "\u{FF11}", "١", "1e0", "1s", "1ms", "00", "٠",
+            ])
+            .prop_map(|s| s.to_string()),
+            "[ -~]{0,12}",
+            "[0-9]{15,25}",
+            "[-+]?[0-9]{0,3}[.eE][-+]?[0-9]{0,4}",
+        ];
+        let invalid = (prop::sample::select(vec!["--read-timeout", "--write-timeout", "--connect-timeout", "--retries", "-p", "--gather-players", "--output-mode", "-f"]), junk, any::<bool>()).prop_map(|(flag, value, tcp)| {
+            let port = if tcp { crate::realnet::closed_tcp_port(IpAddr::V4(Ipv4Addr::LOCALHOST)).unwrap_or(9) } else { 9 };
+            let mut args: Vec<String> = ["query", "-g", if tcp { "minecraftjava" } else { "nosuchgame" }, "-i", "127.0.0.1"].iter().map(|s| s.to_string()).collect();
+            if flag != "-p" {
+                args.push("-p".into());
+                args.push(port.to_string());
+            }
+            // `--flag=value` so that values starting with '-' stay values
+            args.push(if flag.starts_with("--") { format!("{flag}={value}") } else { format!("{flag}{value}") });
+            Case::Invalid { args, what: format!("generated value for {flag}") }
+        });
+        prop_oneof![6 => query, 1 => invalid].boxed()
     }
 
     fn enumerated<'a>(&'a self, _tier: Tier, shard: usize, _nshards: usize) -> Box<dyn Iterator<Item = Case> + 'a> {
